@@ -418,7 +418,7 @@ def main(root, argv):
     c = Check(root, pid, tier, seed)
     log(f"{pid} tier={tier} seed={seed} repo={REPO}")
     rcg, outg = c.go_build()
-    ok_gen = c.regen(cfg) if rcg == 0 else False
+    ok_gen = c.regen(cfg) if rcg == 0 else (not cfg.get("gen"))
     module = cfg["module"]
     rc, out = c.lake_build([module, "drv_" + pid.lower()])
     proofs_ok = rc == 0 and ok_gen
